@@ -344,4 +344,63 @@ Proof.
   intros (Hn & Hp & Hk) Hc. destruct st as [c n s p]; cbn [st_cplx st_nfft st_sides st_psd] in *. subst c.
   unfold set_sides, query; cbn [st_cplx st_nfft st_sides st_psd]. rewrite convert_none by exact Hk. split; reflexivity.
 Qed.
+(* ---------------------------------------------------------------- tools level *)
+(* tools.onesided_2_twosided is the even-NFFT branch of the conversion *)
+Theorem one2two_even_is_conv_thm (p : list F) : (2 <= length p)%nat ->
+  conv (2 * length p - 2) One Two p = one2two_even p /\ length p = flen One (2 * length p - 2).
+Proof.
+  intros H. cbn [conv]. unfold one2two.
+  destruct (Nat.eqb_spec (2 * length p) (2 * length p - 2 + 1)) as [Q|Q]; [lia|].
+  split; [reflexivity|]. rewrite flen_one. lia.
+Qed.
+
+(* tools.cshift: a rotation; it keeps the length and the sum, and cshift(-k) undoes cshift(k) *)
+Lemma rot_lr (l : list F) : rot_left1 (rot_right1 l) = l.
+Proof.
+  destruct l as [|x r]; [reflexivity|]. unfold rot_right1, rot_left1.
+  symmetry. apply app_removelast_last. discriminate.
+Qed.
+Lemma rot_rl (l : list F) : rot_right1 (rot_left1 l) = l.
+Proof.
+  destruct l as [|x r]; [reflexivity|]. unfold rot_left1, rot_right1.
+  destruct (r ++ [x]) eqn:E; [destruct r; discriminate|]. rewrite <- E.
+  rewrite last_last, removelast_last. reflexivity.
+Qed.
+Lemma iter_shift (f : list F -> list F) n x : Nat.iter (S n) f x = Nat.iter n f (f x).
+Proof. induction n as [|n IH]; [reflexivity|]. cbn [Nat.iter nat_rect] in *. rewrite IH. reflexivity. Qed.
+Lemma iter_inverse (f g : list F -> list F) n x : (forall y, g (f y) = y) ->
+  Nat.iter n g (Nat.iter n f x) = x.
+Proof.
+  intros H. induction n as [|n IH]; [reflexivity|].
+  rewrite iter_shift. cbn [Nat.iter nat_rect]. rewrite H. exact IH.
+Qed.
+Theorem cshift_inverse_thm (l : list F) (k : Z) : cshift (cshift l k) (- k) = l.
+Proof.
+  destruct k as [|k|k]; cbn [cshift Z.opp]; [reflexivity| |].
+  - apply iter_inverse. apply rot_lr.
+  - apply iter_inverse. apply rot_rl.
+Qed.
+Lemma sumL_app (a b : list F) : sumL (a ++ b) = sumL a + sumL b.
+Proof. induction a as [|x a IH]; cbn [app sumL]; [ring|]. rewrite IH. ring. Qed.
+Lemma rot_left1_inv (l : list F) : length (rot_left1 l) = length l /\ sumL (rot_left1 l) = sumL l.
+Proof.
+  destruct l as [|x r]; [split; reflexivity|]. unfold rot_left1. split.
+  - rewrite app_length. cbn [length]. lia.
+  - rewrite sumL_app. cbn [sumL]. ring.
+Qed.
+Lemma rot_right1_inv (l : list F) : length (rot_right1 l) = length l /\ sumL (rot_right1 l) = sumL l.
+Proof.
+  destruct (rot_left1_inv (rot_right1 l)) as [H1 H2]. rewrite rot_lr in H1, H2. split; symmetry; assumption.
+Qed.
+Theorem cshift_invariants_thm (l : list F) (k : Z) :
+  length (cshift l k) = length l /\ sumL (cshift l k) = sumL l.
+Proof.
+  destruct k as [|k|k]; cbn [cshift]; [split; reflexivity| |].
+  - induction (Pos.to_nat k) as [|n [I1 I2]]; [split; reflexivity|]. cbn [Nat.iter nat_rect].
+    destruct (rot_right1_inv (Nat.iter n rot_right1 l)) as [H1 H2].
+    split; [rewrite <- I1; exact H1|rewrite <- I2; exact H2].
+  - induction (Pos.to_nat k) as [|n [I1 I2]]; [split; reflexivity|]. cbn [Nat.iter nat_rect].
+    destruct (rot_left1_inv (Nat.iter n rot_left1 l)) as [H1 H2].
+    split; [rewrite <- I1; exact H1|rewrite <- I2; exact H2].
+Qed.
 End ConvertTheory.
